@@ -27,7 +27,6 @@ import (
 	"sync/atomic"
 )
 
-
 type chanMutex struct {
 	ch atomic.Pointer[chan struct{}]
 }
